@@ -91,6 +91,7 @@ func main() {
 	steps := fs.Int("steps", 200, "ops per history")
 	outPath := fs.String("out", "-", "trace output")
 	statsPath := fs.String("stats", "", "stats output")
+	fs.BoolVar(&withSigned, "signed", false, "msgs profile: also send real signed transactions through DeliverTx")
 	fs.BoolVar(&withGenesis, "genesis", false, "round-trip the custom modules' genesis at the end of every history")
 	fs.Parse(os.Args[2:])
 	out := NewEmitter(*outPath)
@@ -103,6 +104,8 @@ func main() {
 		runFiletree(*seed, *hist, *steps, out)
 	case "storage", "proofs", "payments", "plans", "forms", "collateral":
 		runStorage(profile, *seed, *hist, *steps, out)
+	case "msgs":
+		runMsgs(*seed, *hist, *steps, out)
 	case "notif":
 		runNotif(*seed, *hist, *steps, out)
 	default:
